@@ -377,6 +377,19 @@ def dofs_init():
         posn.append(src.index(s))
     if posn != sorted(posn):
         raise TranslateError('Dofs.__init__: statement order changed')
+    guards = {}
+    for node in ast.walk(fn):
+        if isinstance(node, ast.If):
+            inner = _norm(' '.join(t2.src(x) for x in node.body))
+            for kind in ('edge', 'facet'):
+                if f'self.{kind}_dofs' in inner and f'element.{kind}_dofs > 0' in t2.src(node.test):
+                    guards.setdefault(kind, set()).add(_norm(t2.src(node.test)))
+    want = {'edge': {'element.refdom.dim() == 3 and element.edge_dofs > 0'},
+            'facet': {'element.facet_dofs > 0', 'element.refdom.dim() >= 2 and element.facet_dofs > 0'}}
+    for kind in ('edge', 'facet'):
+        if not guards.get(kind) or not guards[kind] <= want[kind]:
+            raise TranslateError(f'Dofs.__init__: guard of the {kind} DOFs must test the spatial dimension of the reference '
+                                 f'domain (model: edges only in 3-D): ' + repr(sorted(guards.get(kind, []))))
     return ('(* Dofs.__init__: kind tables reshape(arange, (d, G), order=F) + running offset; rows stacked kind by kind *)\n'
             'Definition gen_element_dofs (tp : topo) (d : nat -> nat) : list (list nat) := element_dofs_of tp d.')
 
@@ -390,6 +403,43 @@ Require Import Model.C19_Blocks Model.C19_Composite.
 '''
 
 
+def vector_counts():
+    """ElementVector.__init__: the four per-entity DOF counts as functions of the scalar element's counts d K, the
+    component count dim (self.dim) and the spatial dimension edim (elem.dim)"""
+    tree = t2.parse(VEC)
+    fn = t2.find_def(tree, '__init__', 'ElementVector')
+    if [a.arg for a in fn.args.args] != ['self', 'elem', 'dim'] or [t2.src(x) for x in fn.args.defaults] != ['None']:
+        raise TranslateError('ElementVector.__init__ signature')
+    body = _nodoc(fn.body)
+    srcs = [_norm(t2.src(x)) for x in body]
+    if 'self.elem = elem' not in srcs or 'self._dim = elem.dim if dim is None else dim' not in srcs:
+        raise TranslateError('ElementVector.__init__: elem / _dim assignment: ' + repr(srcs[:3]))
+    pr = t2.find_def(tree, 'dim', 'ElementVector')
+    if [_norm(t2.src(x)) for x in _nodoc(pr.body)] != ['return self._dim']:
+        raise TranslateError('ElementVector.dim property')
+    env = {'self.dim': 'dim', 'self._dim': 'dim', 'self.elem.dim': 'edim', 'elem.dim': 'edim'}
+    for a, k in KIND.items():
+        env[f'self.elem.{a}_dofs'] = f'(d {k})'
+        env[f'elem.{a}_dofs'] = f'(d {k})'
+    ex = t2.Expr(env, 'nat')
+    terms = {}
+    for st in body:
+        if isinstance(st, ast.Assign) and len(st.targets) == 1:
+            tg = t2.src(st.targets[0])
+            for a, k in KIND.items():
+                if tg == f'self.{a}_dofs':
+                    if k in terms:
+                        raise TranslateError(f'ElementVector.__init__: {tg} assigned twice')
+                    terms[k] = ex.tr(st.value)
+    if sorted(terms) != [0, 1, 2, 3]:
+        raise TranslateError('ElementVector.__init__: DOF counts not all assigned: ' + repr(sorted(terms)))
+    return ('(* ElementVector.__init__: per-entity DOF counts; d K = counts of the scalar element, dim = number of components\n'
+            '   (self.dim), edim = elem.dim *)\n'
+            'Definition gen_vector_layout (d : nat -> nat) (dim edim : nat) (K : nat) : nat :=\n'
+            f'  match K with 0 => {terms[0]} | 1 => {terms[1]} | 2 => {terms[2]} | _ => {terms[3]} end.\n'
+            'Definition gen_vector_dim (given : option nat) (edim : nat) : nat := match given with None => edim | Some n => n end.')
+
+
 def translate_comp():
     bfun_counts()
-    return HEADER2 + deduce_bfun() + '\n\n' + split_indices() + '\n\n' + dofs_init() + '\n'
+    return HEADER2 + deduce_bfun() + '\n\n' + split_indices() + '\n\n' + dofs_init() + '\n\n' + vector_counts() + '\n'
